@@ -12,6 +12,8 @@ data with keepalive and snapshot requests.
 import Kap.Proofs.C19Frame
 import Kap.Proofs.C19Echo
 import Kap.Proofs.C19Trunc
+import Kap.Proofs.C19Wire
+import Kap.Gen.C19Writers
 namespace Kap.Props.C19
 open Kap.C19
 
@@ -204,6 +206,63 @@ theorem framing_truncation_safe (ps : List (List Nat)) (cs : Chunks) (ewd : Bool
   unfold readAll srcDataFirst
   exact this
 
+/-! ### The write side: one writer per stream (`Server.writeData`, `Agent.writeLoop`) -/
+
+/-- **One write loop puts whole frames on the wire**: whatever queue of marshalled messages the loop serves, the
+bytes of its `Write` calls (two per message) are the concatenation of the messages' frames. -/
+theorem single_writer_stream_is_frames (q : List (List Nat)) :
+    wireBytes (wireSingle q) = (q.map frame).flatten :=
+  wireSingle_bytes q
+
+/-- **Every interleaving of data with keepalive and management requests reads back**: the write loop's `select`
+may take the requests other goroutines hand it (`ks`: keepalive, snapshot, restore, …) at ANY position between the
+data messages (`ds`) — for every such queue `q`, every fragmentation of the written bytes into reads and any codec
+with `dec (enc m) = m`, the peer's read loop returns exactly `q`: every message once, as written, each stream in its
+own order — in particular the data messages (`isData`) are exactly `ds`, in order, with nothing torn, lost or
+invented by a request that fell between them. -/
+theorem interleaved_requests_read_back {μ : Type} (enc : μ → List Nat) (dec : List Nat → Option μ)
+    (hcodec : ∀ m, dec (enc m) = some m) (isData : μ → Bool) (ds ks q : List μ) (hq : Interleave ds ks q)
+    (hd : ∀ m ∈ ds, isData m = true) (hk : ∀ m ∈ ks, isData m = false)
+    (hlen : ∀ m ∈ q, (enc m).length < 2 ^ 64)
+    (cs : Chunks) (hcs : cs.flatten = wireBytes (wireSingle (q.map enc))) (ewd : Bool) :
+    (readAll ewd cs).1.map dec = q.map some ∧ (readAll ewd cs).2 = RdErr.eof ∧
+    ((readAll ewd cs).1.filterMap dec).filter isData = ds := by
+  have hcs' : cs.flatten = (q.map (fun m => frame (enc m))).flatten := by
+    rw [hcs, wireSingle_bytes, List.map_map]; rfl
+  obtain ⟨h1, h2⟩ := messages_read_back enc dec hcodec q hlen cs hcs' ewd
+  refine ⟨h1, h2, ?_⟩
+  have : (readAll ewd cs).1.filterMap dec = q := by
+    have := congrArg (List.filterMap id) h1
+    simpa [List.filterMap_map, Function.comp_def] using this
+  rw [this]
+  exact hq.filter_left isData hd hk
+
+/-- Counterexample (why the write loop must be the ONLY writer; seeded change C19-6 made `runKeepalive` call
+`writeRequest` itself): a second goroutine whose two `Write` calls fall between the two `Write` calls of the write
+loop's message tears the frame — the data payload `[1,2,3]` and the keepalive payload `[9]` are both written
+completely, yet the reader gets one message that is neither (`[1,9,1]`) and then an unexpected end of stream. -/
+theorem second_writer_tears_frame :
+    ∃ (d k : List Nat) (w : List (List Nat)), Interleave (writesOf d) (writesOf k) w ∧
+      wireBytes w ≠ wireBytes (wireSingle [d, k]) ∧ wireBytes w ≠ wireBytes (wireSingle [k, d]) ∧
+      d ∉ (readAll false [wireBytes w]).1 ∧ k ∉ (readAll false [wireBytes w]).1 ∧
+      (readAll false [wireBytes w]).2 ≠ RdErr.eof := by
+  refine ⟨[1, 2, 3], [9], [[3], [1], [9], [1, 2, 3]], ?_, ?_, ?_, by decide, by decide, by decide⟩
+  · have h1 : writesOf [1, 2, 3] = [[3], [1, 2, 3]] := by simp [writesOf, putUvarint_lt]
+    have h2 : writesOf [9] = [[1], [9]] := by simp [writesOf, putUvarint_lt]
+    rw [h1, h2]
+    exact .left (.right (.right (.left .nil)))
+  · simp [wireBytes, wireSingle, writesOf, putUvarint_lt]
+  · simp [wireBytes, wireSingle, writesOf, putUvarint_lt]
+
+/-- **The source has one writer per stream** (regenerated from udf/server.go and udf/agent/agent.go on every run by
+/verif/extract/c19writers): of all goroutine roots of `Server` (every `go` statement, every exported method) exactly
+one reaches a write to `Server.out` — the write loop started by `Start` — and likewise for `Agent.out`; no use of
+either stream field escapes the extractor's rules. This is the hypothesis under which `wireSingle` is the byte
+stream of the real code. -/
+theorem one_writer_per_stream :
+    Kap.C19.Gen.serverWriters = ["go@Start#1:func"] ∧ Kap.C19.Gen.agentWriters = ["go@Start#2:func"] := by
+  decide
+
 /-! ### Non-vacuity: the hypotheses are met by concrete, non-trivial instances -/
 
 /-- 300 needs a two-byte varint; its bytes split one per read, a stray empty read, the rest in one chunk. -/
@@ -227,6 +286,13 @@ def exBatch : Item := .batch false exB [exBP1, exBP2]
 
 theorem nonvacuity_inputs_wf : (Item.pt exPoint).WF ∧ exBatch.WF :=
   ⟨⟨by decide, rfl⟩, ⟨rfl, rfl⟩, by decide⟩
+
+/-- `interleaved_requests_read_back` instantiated: two data payloads, a keepalive taken between them, one-byte
+reads, identity codec. -/
+example : ((readAll true [[2], [1], [2], [1], [9], [1, 3]]).1.filterMap some).filter (fun m => m != [9]) = [[1, 2], [3]] :=
+  (interleaved_requests_read_back id some (fun _ => rfl) (fun m => m != [9]) [[1, 2], [3]] [[9]] [[1, 2], [9], [3]]
+    (.left (.right (.left .nil))) (by decide) (by decide) (by decide) _
+    (by simp [wireBytes, wireSingle, writesOf, putUvarint_lt]) true).2.2
 
 /-- `echo_identity` instantiated: a point with all four field types (NaN payload, an int beyond 2^53, a string with
 a newline) followed by an unbuffered batch (begin, two points, end); a snapshot request is written between the
